@@ -165,6 +165,9 @@ theorem storeInv_replaceFailedProxy (s : Store) (failedAddr choice : String) (h 
         cases u
         simp only at h1 ⊢
         split
+        · -- ordered mode: takeover, a second bump, no replacement
+          exact h1.of_clusters_eq rfl
+        split
         · next np _ =>
           split
           · exact h1.of_clusters_eq rfl
@@ -238,13 +241,15 @@ theorem storeInv_recoverEpoch (s : Store) (e : Nat) (h : StoreInv s) : StoreInv 
 /-! ## proxies, failures, remove_cluster -/
 
 /-- D: `add_proxy` keeps `StoreInv` -/
-theorem storeInv_addProxy (s : Store) (addr n0 n1 : String) (host : Option String) (h : StoreInv s) :
-    StoreInv (addProxy s addr n0 n1 host).1 := by
+theorem storeInv_addProxy (s : Store) (addr n0 n1 : String) (host : Option String) (index : Option Nat)
+    (h : StoreInv s) : StoreInv (addProxy s addr n0 n1 host index).1 := by
   unfold addProxy
   split
   · exact h
   · simp only
-    split <;> exact h.of_clusters_eq rfl
+    split
+    · exact h
+    · split <;> exact h.of_clusters_eq rfl
 
 /-- D: `remove_proxy` keeps `StoreInv` -/
 theorem storeInv_removeProxy (s : Store) (addr : String) (h : StoreInv s) :
